@@ -131,7 +131,7 @@ func tightOK(a, b ctok) bool {
 	if (a.class == "ident" || a.class == "keyword" || a.class == "number") && (b.class == "ident" || b.class == "keyword" || b.class == "number") {
 		return false
 	}
-	if a.class == "number" && (b.text == "." || b.text == "-" || b.text == "+") {
+	if a.class == "number" && b.text == "." {
 		return false
 	}
 	if b.class == "number" && a.text == "." {
@@ -453,6 +453,15 @@ func c15Layout(c *wk.Case) {
 	_, args, toks, ok := c15Program(c)
 	if !ok {
 		return
+	}
+	// number spellings: some literals are rewritten with an exponent (unsigned, signed, with fraction), so that
+	// a sign or another token written tight behind the exponent's digits is met; canonical and variant
+	// layouts use the same spelling
+	toks = append([]ctok{}, toks...)
+	for i := range toks {
+		if toks[i].class == "number" && c.Rng.IntN(3) == 0 && (i == 0 || toks[i-1].text != ".") {
+			toks[i].text = []string{"1e3", "2e10", "1.5e2", "3e0", "1e-3", "2.5e+3", "7e1", "12e12"}[c.Rng.IntN(8)]
+		}
 	}
 	comments := c.Index%3 != 0
 	// the optimizer is switched off for the comparison: folded constants such as the string form of an
